@@ -18,14 +18,14 @@ Hypotheses of the theorems below:
                    year, or a start that carries a year (one interval): no condition; a yearless single day
                    (`Feb 29`, `Dec 25 +Su`) and a yearless range (`Mar 01-Jun 15`, `Dec 24-Jan 02`,
                    `easter -2 days-easter +1 day`, `Jan 01 +400 days-Jan 10 +770 days`): both day offsets within
-                   ±30 000 000 days, ±300 000 days for a range one bound of which is Easter (and, for the range,
-                   an end without a year: a defined meaning) — NO condition
+                   ±92 000 000 days (a single day: the end offset only), ±300 000 days for a range one bound of
+                   which is Easter (and, for the range, an end without a year: a defined meaning) — NO condition
                    on the size of the shift relative to a year any more: the search windows of
                    `MonthdayRange::Date` are centred on the year of `d - day offset` (`yearBeforeOffset`).
                    Expressions without dated ranges (`NoDated`) are in scope.  The former refutation of the
                    unscoped statement (`envOK_fails_shifted`, witness `Jan 01 +400 days-Jan 10 +770 days`,
                    open finding `dated-shift-over-a-year`) is now the theorem `envOK_shifted`: the witness is in
-                   scope and `EnvOK` holds of it.  Beyond ±30 000 000 days (±300 000 with Easter) nothing is
+                   scope and `EnvOK` holds of it.  Beyond ±92 000 000 days (±300 000 with Easter) nothing is
                    proved (why: OH/Proofs/EvalSpecDatedClass.lean, notes/DATED-BOUND.md); no failure of
                    `EnvOK` is known there (brute force on the model up to ±10⁹ days: the hint stays sound).
   (`ExprDatedOK e` is the semantic form of the scope: every dated range has a total filter and a sound hint.)
@@ -161,7 +161,7 @@ theorem envOK_of_parserWF (ctx : Ctx) (hc : CtxWF ctx) (e : Expr) (hw : ParserWF
 The `…_partial` theorems of OH/Props/C02.lean, C03.lean, C16.lean instantiated: the hypothesis
 `DayLevelOK ctx e` is replaced by `CtxWF ctx`, `ParserWF e` and the decidable scope `exprHintSafe e`
 (`NoDated e` suffices: `exprHintSafe_of_noDated`).  Still `…_partial`: FULL STATEMENT = the same without the
-scope hypothesis (day offsets of yearless dated ranges within ±30 000 000 days, ±300 000 days when a bound is
+scope hypothesis (day offsets of yearless dated ranges within ±92 000 000 days, ±300 000 days when a bound is
 Easter), which is neither proved nor
 refuted (the former refutation is now `envOK_shifted` below). -/
 
@@ -301,7 +301,8 @@ theorem shifted_witness_values :
 (`Jan 01 -7 days-Dec 25`), occurrences three years long (`Jan 01 -364 days-Dec 31 +370 days`), a single day
 longer than a year (`Dec 28 +35 days-Dec 28 +405 days`), February 29th with a long occurrence
 (`Feb 29 -1000 days-Feb 29 +10 days`), offsets of ±100 000 days with weekday moves, and the bounds of the
-scope: `Jan 01 -Mo -30000000 days-Dec 31 +Su +30000000 days`, `easter -300000 days-easter +300000 days` -/
+scope: `Jan 01 -Mo -92000000 days-Dec 31 +Su +92000000 days`, `Feb 29 -10¹² days-Feb 29 -92000000 days`,
+`easter -300000 days-easter +300000 days` -/
 def wideDated : Expr :=
   let day (m : MonthdayRange) : DaySelector := ⟨[], [m], [], []⟩
   [ ⟨day (.date (.fixed none 1 1) ⟨.none, -7⟩ (.fixed none 12 25) ⟨.none, 0⟩), [TimeSpan.fullDay], .open, .normal, []⟩,
@@ -309,16 +310,17 @@ def wideDated : Expr :=
     ⟨day (.date (.fixed none 12 28) ⟨.none, 35⟩ (.fixed none 12 28) ⟨.none, 405⟩), [⟨.fixed 600, .fixed 720, false, none⟩], .open, .normal, []⟩,
     ⟨day (.date (.fixed none 2 29) ⟨.none, -1000⟩ (.fixed none 2 29) ⟨.none, 10⟩), [TimeSpan.fullDay], .unknown, .normal, []⟩,
     ⟨day (.date (.fixed none 1 1) ⟨.prev 0, -100000⟩ (.fixed none 12 31) ⟨.next 6, 100000⟩), [TimeSpan.fullDay], .open, .additional, []⟩,
-    ⟨day (.date (.fixed none 1 1) ⟨.prev 0, -30000000⟩ (.fixed none 12 31) ⟨.next 6, 30000000⟩), [TimeSpan.fullDay], .open, .additional, []⟩,
+    ⟨day (.date (.fixed none 1 1) ⟨.prev 0, -92000000⟩ (.fixed none 12 31) ⟨.next 6, 92000000⟩), [TimeSpan.fullDay], .open, .additional, []⟩,
+    ⟨day (.date (.fixed none 2 29) ⟨.none, -1000000000000⟩ (.fixed none 2 29) ⟨.none, -92000000⟩), [TimeSpan.fullDay], .open, .additional, []⟩,
     ⟨day (.date (.easter none) ⟨.none, -300000⟩ (.easter none) ⟨.none, 300000⟩), [TimeSpan.fullDay], .open, .additional, []⟩ ]
 
 example : ParserWF wideDated = true := by decide
 example : exprHintSafe wideDated = true := by decide
 example : DayLevelOK demoCtx wideDated := envOK_of_parserWF demoCtx (by decide) wideDated (by decide) (by decide)
 
-/-- outside the scope (nothing is proved, nothing is known to fail): a day offset beyond ±30 000 000 days on a
+/-- outside the scope (nothing is proved, nothing is known to fail): a day offset beyond ±92 000 000 days on a
 yearless start; beyond ±300 000 days next to Easter -/
-example : exprHintSafe [⟨⟨[], [.date (.fixed none 1 1) ⟨.none, 30000001⟩ (.fixed none 1 10) ⟨.none, 0⟩], [], []⟩,
+example : exprHintSafe [⟨⟨[], [.date (.fixed none 1 1) ⟨.none, 92000001⟩ (.fixed none 1 10) ⟨.none, 0⟩], [], []⟩,
     [TimeSpan.fullDay], .open, .normal, []⟩] = false := by decide
 example : exprHintSafe [⟨⟨[], [.date (.easter none) ⟨.none, 300001⟩ (.fixed none 12 31) ⟨.none, 0⟩], [], []⟩,
     [TimeSpan.fullDay], .open, .normal, []⟩] = false := by decide
